@@ -130,6 +130,8 @@ pub fn c01(cx: &RunCtx) {
     for_each_dom!(c01_dom, cx);
     crate::fam::pumping_all(cx, &[Kind::Panic]);
     crate::fam::critical_all(cx, &[Kind::Panic]);
+    crate::fam::special_integers_all(cx, &[Kind::Panic]);
+    crate::fam::plausible_names_all(cx, &[Kind::Panic]);
     crate::fam::big_integers_all(cx, &[Kind::Panic]);
     crate::fam::nested_slips_all(cx, &[Kind::Panic]);
     crate::fam::foreign_all(cx, &[Kind::Panic]);
@@ -156,6 +158,7 @@ pub fn c02(cx: &RunCtx) {
     for_each_dom!(c02_dom, cx);
     crate::fam::pumping_all(cx, &[Kind::Budget]);
     crate::fam::critical_all(cx, &[Kind::Budget]);
+    crate::fam::special_integers_all(cx, &[Kind::Budget]);
     crate::tchecks::all_ops_trees(cx, &[Kind::Budget]);
 }
 
@@ -173,6 +176,7 @@ pub fn c03(cx: &RunCtx) {
     crate::fam::per_name_all(cx, &[Kind::MalformedOk, Kind::WellFormedErr, Kind::PrefixOk]);
     crate::fam::pumping_all(cx, &[Kind::MalformedOk, Kind::WellFormedErr, Kind::PrefixOk]);
     crate::fam::nested_slips_all(cx, &[Kind::MalformedOk, Kind::WellFormedErr, Kind::PrefixOk]);
+    crate::fam::plausible_names_all(cx, &[Kind::MalformedOk, Kind::WellFormedErr, Kind::PrefixOk]);
     crate::fam::foreign_all(cx, &[Kind::MalformedOk, Kind::WellFormedErr, Kind::PrefixOk]);
     let d = if quick(cx) { 4 } else { 5 };
     let k = [Kind::MalformedOk, Kind::WellFormedErr, Kind::PrefixOk];
